@@ -376,8 +376,13 @@ func CheckMain(args []string) int {
 				if ee, ok := err.(*exec.ExitError); ok {
 					code = ee.ExitCode()
 				}
+				full, _ := os.ReadFile(logf)
 				if code == 124 || code == 131 || strings.Contains(tail, "SIGQUIT") {
 					total.Inconclusive = append(total.Inconclusive, fmt.Sprintf("shard %d-%d %s: watchdog after %v", sp.from, sp.to, sp.phase, wd))
+				} else if crash := crashInRepo(string(full)); crash != "" {
+					// the code under test brought the process down (panic, fatal runtime error such as concurrent
+					// map writes) with a repository frame on the stack: that is an observation, not a harness failure
+					total.Violate(Violation{Prop: c.ID, Sig: "process-crash:" + crash, Msg: fmt.Sprintf("the child process running cases %d-%d %s died: %s", sp.from, sp.to, sp.phase, crash), Case: sp.from, Detail: map[string]interface{}{"log": tail}})
 				} else {
 					broken = append(broken, fmt.Sprintf("shard %d-%d %s exited %v without result:\n%s", sp.from, sp.to, sp.phase, err, tail))
 				}
@@ -595,6 +600,25 @@ func firstLines(s string, n int) string {
 		l = l[:n]
 	}
 	return strings.Join(l, " / ")
+}
+
+// crashInRepo returns the first line of a panic / fatal error if a goroutine stack of the dump has a frame in /repo.
+func crashInRepo(log string) string {
+	i := strings.Index(log, "fatal error:")
+	if j := strings.Index(log, "panic:"); j >= 0 && (i < 0 || j < i) {
+		i = j
+	}
+	if i < 0 || !strings.Contains(log[i:], "/repo/pkg/") {
+		return ""
+	}
+	line := log[i:]
+	if k := strings.Index(line, "\n"); k >= 0 {
+		line = line[:k]
+	}
+	if len(line) > 160 {
+		line = line[:160]
+	}
+	return line
 }
 
 func filterCase(vs []Violation, c int) []Violation {
